@@ -365,6 +365,21 @@ func (c *Ctx) genC05() {
 		n = 60000
 	}
 	issuers := []string{"https://sp.example.com/metadata", "https://other.example.com/metadata", "https://broken.example.com/metadata"}
+	// Destination, alone: every near miss of the SSO URL on an otherwise valid request, both bindings
+	{
+		goodReg := registry{issuers[0]: regEntry{kind: "f", md: mdEntity{EntityID: issuers[0], Descs: []mdDesc{{ACS: []mdEndpoint{{Binding: saml.HTTPPostBinding, Location: "https://sp.example.com/acs0", Index: 1}}}}}}}
+		for _, d := range []string{idpSSOURL, "", "https://idp.example.com:8443/saml/sso", "https://idp.example.com:443/saml/sso", idpSSOURL + "?tenant=evil", idpSSOURL + "?", idpSSOURL + "#frag",
+			"https://user@idp.example.com/saml/sso", "https://user:pw@idp.example.com/saml/sso", "https://idp.example.com/saml/%73so", "https://idp.example.com/saml/sso%20", "https://IDP.example.com/saml/sso",
+			"HTTPS://idp.example.com/saml/sso", "http://idp.example.com/saml/sso", idpSSOURL + "/", "https://idp.example.com//saml/sso", "https://idp.example.com/saml/../saml/sso", " " + idpSSOURL, idpSSOURL + " ",
+			"https://idp.example.com./saml/sso", "//idp.example.com/saml/sso", "/saml/sso", "https://evil.example.org/saml/sso", "https://idp.example.com.evil.example.org/saml/sso"} {
+			for _, post := range []bool{false, true} {
+				ii := now - 1000
+				a := areq{ID: "id-dest", Issuer: sp(issuers[0]), Version: sp("2.0"), II: &ii, Destination: d}
+				c.count("c05-destination", "near-miss-alone")
+				c.idpValidate(goodReg, []string{issuers[0]}, a, now, delay, post)
+			}
+		}
+	}
 	for i := 0; i < n; i++ {
 		reg := registry{}
 		order := []string{}
@@ -406,6 +421,8 @@ func (c *Ctx) genC05() {
 			a.Destination = "https://evil.example.org/sso"
 		case 2:
 			a.Destination = idpSSOURL + "/"
+		case 3:
+			a.Destination = c.pick("https://idp.example.com:8443/saml/sso", idpSSOURL+"?x=1", idpSSOURL+"#f", "https://u@idp.example.com/saml/sso", "https://idp.example.com/saml/%73so", "http://idp.example.com/saml/sso")
 		}
 		if c.chance(0.05) {
 			a.II = nil
